@@ -128,7 +128,7 @@ def gen_structured(rng, tier, ctx):
     """case = (methods, argument tuples per method); several methods share one class and one compiler run"""
     cases = []
     for b in range(30 if tier == "thorough" else 4):
-        methods = [J.gen_method(rng, i) for i in range(4)] + [J.gen_pattern(rng, 4 + i) for i in range(2)]
+        methods = [J.gen_method(rng, i) for i in range(4)] + [J.gen_pattern(rng, 4 + i) for i in range(2)] + [J.gen_const_fold(rng, 6 + i) for i in range(6)]
         argsets = []
         for m in methods:
             argsets.append([tuple(rng.choice(I_EDGE) if t == "I" else rng.choice(J_EDGE) for t in m["params"]) for _ in range(8)])
